@@ -275,7 +275,8 @@ def observe(case: dict) -> dict:
     """run everything the case asks for; never raises"""
     want = case.get("want") or {}
     obs = {"valid": False, "nmsgs": 0, "valid_err": "", "elements": [], "elements_ok": False,
-           "np": {"has": False}, "np_own": {"has": False}, "steps": [], "fn": [], "jac": [], "sens": []}
+           "np": {"has": False}, "np_plain": {"has": False}, "steps": [], "fn": [], "jac": [], "sens": [],
+           "twin": {"has": False}}
     try:
         b = Built(case)
     except BaseException as e:  # noqa: BLE001
@@ -292,7 +293,7 @@ def observe(case: dict) -> dict:
     except BaseException as e:  # noqa: BLE001
         obs["valid_err"] = errstr(e)
     try:
-        els = [rev.get(el.name, el.name) for el in b.net.elements]
+        els = [b.idof.get(el, el.name) for el in b.net.elements]
         obs["elements"] = els
         allids = list(b.links) + list(b.origins) + list(b.dests)
         obs["elements_ok"] = sorted(els) == sorted(allids)
@@ -310,6 +311,22 @@ def observe(case: dict) -> dict:
         except BaseException as e:  # noqa: BLE001
             o["err"] = errstr(e)
         obs["np"] = o
+    # ---- the same step without options on inputs clamped at zero by hand (metamorphic partner of C11)
+    if want.get("np_plain", False):
+        o = {"has": True, "ok": False, "err": "", "y": {"rho": {}, "v": {}, "w": {}}}
+        try:
+            op = case["opts"]
+            pos = lambda on, z: max(0.0, z) if on else z  # noqa: E731
+            x2 = {"rho": {l: [pos(op["pid"], z) for z in s_] for l, s_ in x["rho"].items()},
+                  "v": {l: [pos(op["pis"], z) for z in s_] for l, s_ in x["v"].items()},
+                  "w": {q: pos(op["piq"], z) for q, z in x["w"].items()}}
+            b3 = Built(case)
+            b3.net.step(init_conditions=b3.np_init(x2, u, d), engine=np_engine(), **kw)
+            o["y"], _ = b3.read_next()
+            o["ok"] = True
+        except BaseException as e:  # noqa: BLE001
+            o["err"] = errstr(e)
+        obs["np_plain"] = o
     # ---- NumPy with the engine's own variables
     if want.get("np_own", False):
         for vt in ("rand", "empty"):
@@ -341,6 +358,8 @@ def observe(case: dict) -> dict:
         obs["fn"].append(run_fn(case, spec, x, u, d, rng))
     for sym in want.get("jac", []):
         obs["jac"].append(run_jac(case, sym))
+    if want.get("twin", False) and case.get("twin", {}).get("expect", "none") != "none":
+        obs["twin"] = observe_twin(case, x, u, d)
     return obs
 
 
@@ -357,11 +376,22 @@ def make_syms(eng, params):
 def param_value(case, p):
     if p["kind"] in MODEL_PARAMS:
         return num(case["par"][p["kind"]])
-    if p["kind"] == "C":
-        els = [p["el"]] if p["el"] != "*" else list(case["net"]["origins"])
-        return num(case["net"]["origins"][els[0]]["C"])
-    els = [p["el"]] if p["el"] != "*" else list(case["net"]["links"])
-    return num(case["net"]["links"][els[0]][p["kind"]])
+    table = case["net"]["origins"] if p["kind"] == "C" else case["net"]["links"]
+    els = [p["el"]] if p["el"] != "*" else list(table)
+    if not els:
+        return 1000.0  # declared but unused (no element carries this parameter)
+    return num(table[els[0]][p["kind"]])
+
+
+class LibraryError(Exception):
+    """an exception raised by the library under test (as opposed to a bug of this harness)"""
+
+
+def lib(fn, *a, **k):
+    try:
+        return fn(*a, **k)
+    except BaseException as e:  # noqa: BLE001
+        raise LibraryError(errstr(e)) from e
 
 
 def run_fn(case, spec, x, u, d, rng):
@@ -372,20 +402,32 @@ def run_fn(case, spec, x, u, d, rng):
                       for p in params],
            "ok": False, "err": "", "free": 0, "name_in": [], "size_in": [], "name_out": [], "size_out": [], "calls": []}
     try:
-        eng = cs_engine(sym)
+        eng = lib(cs_engine, sym)
         syms, decl = make_syms(eng, params)
-        b = Built(case, syms)
+        b = lib(Built, case, syms)
         kw = par_kwargs(case, syms)
-        b.net.step(engine=eng, **opt_kwargs(case), **kw)
+        lib(b.net.step, engine=eng, **opt_kwargs(case), **kw)
         pd = {name: s for name, s, _ in decl}
         other = {k: v for k, v in kw.items() if k not in pd}
-        F = eng.to_function(b.net, compact=compact, more_out=more_out, parameters=pd or None, **other)
+        F = lib(eng.to_function, b.net, compact=compact, more_out=more_out, parameters=pd or None, **other)
         rec["free"] = len(F.get_free()) if hasattr(F, "get_free") else 0
         rec["name_in"], rec["name_out"] = list(F.name_in()), list(F.name_out())
+        real_in = list(rec["name_in"])
+        ren = case.get("names") or {}
+        if ren:  # the harness renamed the elements: report names with the abstract ids put back
+            def back(n):
+                plus = n.endswith("+")
+                core = n[:-1] if plus else n
+                for a_, c_ in sorted(ren.items(), key=lambda kv: -len(kv[1])):
+                    if core.endswith("_" + c_):
+                        core = core[: -len(c_)] + a_
+                        break
+                return core + ("+" if plus else "")
+            rec["name_in"], rec["name_out"] = [back(n) for n in rec["name_in"]], [back(n) for n in rec["name_out"]]
         rec["size_in"] = [int(F.size1_in(i) * F.size2_in(i)) for i in range(F.n_in())]
         rec["size_out"] = [int(F.size1_out(i) * F.size2_out(i)) for i in range(F.n_out())]
         npar = (len(decl) if compact <= 0 else 1) if decl else 0
-        nmain = F.n_in() - npar
+        nmain = max(0, F.n_in() - npar)
 
         def pvals(scale):
             vals = [param_value(case, p) * scale for _, _, p in decl]
@@ -394,20 +436,20 @@ def run_fn(case, spec, x, u, d, rng):
         argsets = []
         byname = b.byname(x, u, d)
         if compact <= 0 and all(n in byname and len(byname[n]) == rec["size_in"][i]
-                                for i, n in enumerate(rec["name_in"][:nmain])):
-            argsets.append((True, [list(map(float, byname[n])) for n in rec["name_in"][:nmain]] + (pvals(1.0) if decl else [])))
+                                for i, n in enumerate(real_in[:nmain])):
+            argsets.append((True, [list(map(float, byname[n])) for n in real_in[:nmain]] + (pvals(1.0) if decl else [])))
         for c in range(int(spec.get("generic_calls", 1))):
             main = [[rng.uniform(3.0, 90.0) for _ in range(rec["size_in"][i])] for i in range(nmain)]
             argsets.append((False, main + (pvals(1.0 if c == 0 else 1.0 + 0.03 * c) if decl else [])))
         for bn, args in argsets:
-            outs = F(*[cs.DM(a) if len(a) else cs.DM(0, 1) for a in args])
+            outs = lib(F, *[cs.DM(a) if len(a) else cs.DM(0, 1) for a in args])
             if not isinstance(outs, (tuple, list)):
                 outs = [outs]
             rec["calls"].append({"byname": bn and not decl, "args": [[fr(z) for z in a] for a in args],
                                  "outs": [[fr(z) for z in np.asarray(o, float).reshape(-1)] for o in outs]})
         rec["ok"] = True
-    except BaseException as e:  # noqa: BLE001
-        rec["err"] = errstr(e)
+    except LibraryError as e:
+        rec["err"] = str(e)
         if os.environ.get("VERIF_DEBUG"):
             traceback.print_exc()
     return rec
@@ -434,7 +476,54 @@ def run_jac(case, sym):
     return rec
 
 
+def fn_states_by_name(case, sym, x, u, d):
+    """next states of an uncompacted function evaluated by argument NAME, keyed by abstract ids"""
+    eng = cs_engine(sym)
+    b = Built(case)
+    b.net.step(engine=eng, **opt_kwargs(case), **par_kwargs(case))
+    F = eng.to_function(b.net, compact=0)
+    vals = b.byname(x, u, d)
+    outs = F(*[cs.DM(vals[n]) if len(vals[n]) else cs.DM(0, 1) for n in F.name_in()])
+    outs = dict(zip(F.name_out(), outs if isinstance(outs, (list, tuple)) else [outs]))
+    names = case.get("names") or {}
+    nm = lambda i: names.get(i, i)  # noqa: E731
+    y = {"rho": {}, "v": {}, "w": {}}
+    for l in b.links:
+        for var in ("rho", "v"):
+            y[var][l] = [fr(z) for z in np.asarray(outs[f"{var}_{nm(l)}+"], float).reshape(-1)]
+    for o in b.origins:
+        if case["net"]["origins"][o]["kind"] != "ideal":
+            y["w"][o] = fr(float(np.asarray(outs[f"w_{nm(o)}+"], float).reshape(-1)[0]))
+    return y
+
+
+def observe_twin(case, x, u, d):
+    o = {"has": True, "ok": False, "err": "", "np": {"rho": {}, "v": {}, "w": {}}, "fn": []}
+    try:
+        tw = case["twin"]
+        tu = tw["u"]
+        tcase = dict(case, net=tw["net"], u={"vctrl": tu.get("vctrl") or {}, "o": tu.get("o") or {}})
+        for a, b_ in (("net", "origins"), ("net", "dests")):
+            if isinstance(tcase[a].get(b_), list):
+                tcase[a] = dict(tcase[a], **{b_: {}})
+        _, u2, _ = values(tcase)
+        b = Built(tcase)
+        b.net.step(init_conditions=b.np_init(x, u2, d), engine=np_engine(), **opt_kwargs(case), **par_kwargs(case))
+        o["np"], _ = b.read_next()
+        for sym in ("SX", "MX"):
+            o["fn"].append({"sym": sym, "base": fn_states_by_name(case, sym, x, u, d),
+                            "twin": fn_states_by_name(tcase, sym, x, u2, d)})
+        o["ok"] = True
+    except BaseException as e:  # noqa: BLE001
+        o["err"] = errstr(e)
+        if os.environ.get("VERIF_DEBUG"):
+            traceback.print_exc()
+    return o
+
+
 def run_case(case: dict) -> dict:
     rec = dict(case)
-    rec["obs"] = observe(case)
+    rec.setdefault("rel", {"kind": "none"})
+    rec.setdefault("twin", {"expect": "none"})
+    rec["obs"] = observe(rec)
     return rec
